@@ -263,9 +263,11 @@ class SymbolGraph(metaclass=SingletonMeta):
         :param type_: The symbol type to look for
         :return: All wrapped instances that refer to an instance of the given type.
         """
+        # a subclass that is reachable through several bases (diamond) is listed once per path
+        classes = list(dict.fromkeys([type_] + recursive_subclasses(type_)))
         yield from (
             instance.instance
-            for cls in [type_] + recursive_subclasses(type_)
+            for cls in classes
             for instance in list(self._class_to_wrapped_instances[cls])
         )
 
